@@ -356,6 +356,12 @@ func (f *Func) reachTarget(
 				skip = true
 				argMap[graph.VertexID(out)] = v.Value
 			}
+
+		case *valueVertex:
+			if v.Value.IsValid() {
+				skip = true
+				argMap[graph.VertexID(out)] = v.Value
+			}
 		}
 
 		// If we're skipping because we have this value already, then
